@@ -98,6 +98,13 @@ type call struct {
 	expect   *xt.Node
 	blocking bool
 	desc     string
+	// TokenWriter: the caller flushes after that many tokens, while the element
+	// is still open (-1: only Close flushes)
+	flushAt int
+	// Send, SendIQ, SendMessage, SendPresence transmit the first element of the
+	// reader they are given: what the reader holds after it ("" nothing,
+	// "element", "stanza", "text") stays in the reader
+	trailing string
 
 	err      error
 	returned atomic.Bool // set after err/panicked (publishes them)
@@ -357,7 +364,7 @@ var plainEntries = []string{"Send", "SendElement", "Encode", "EncodeElement", "T
 var stanzaEntries = []string{"Send%s", "Send%sElement", "Encode%s", "Encode%sElement"}
 
 func genCall(t *rapid.T, idx int, ns, s2sFrom string, inHandler bool) *call {
-	c := &call{idx: idx}
+	c := &call{idx: idx, flushAt: -1}
 	mark := strconv.Itoa(idx)
 	kind := rapid.IntRange(0, 9).Draw(t, "callkind")
 	if inHandler {
@@ -521,8 +528,37 @@ func genCall(t *rapid.T, idx int, ns, s2sFrom string, inHandler bool) *call {
 		arg += fmt.Sprintf(" stanza={type=%q id=%q to=%q from=%q lang=%q}", string(c.iq.Type)+string(c.msg.Type)+string(c.pres.Type), c.iq.ID+c.msg.ID+c.pres.ID,
 			c.iq.To.String()+c.msg.To.String()+c.pres.To.String(), c.iq.From.String()+c.msg.From.String()+c.pres.From.String(), c.iq.Lang+c.msg.Lang+c.pres.Lang)
 	}
+	switch c.entry {
+	case "TokenWriter":
+		if rapid.Bool().Draw(t, "flushMid") {
+			c.flushAt = rapid.IntRange(1, 4).Draw(t, "flushAt")
+			arg += fmt.Sprintf(" (Flush after %d tokens)", c.flushAt)
+		}
+	case "Send", "SendIQ", "SendMessage", "SendPresence":
+		if rapid.IntRange(0, 2).Draw(t, "moreInReader") == 0 {
+			c.trailing = rapid.SampledFrom([]string{"element", "stanza", "text"}).Draw(t, "trailing")
+			arg += fmt.Sprintf(" (the reader holds more after the element: %s)", c.trailing)
+		}
+	}
 	c.desc = fmt.Sprintf("%s[%s] %s", c.entry, c.form, arg)
 	return c
+}
+
+// reader returns the token reader handed to the Send family: the element,
+// followed by whatever else the reader holds.
+func (c *call) reader() xml.TokenReader {
+	var rest []xml.Token
+	switch c.trailing {
+	case "":
+		return c.node.Reader()
+	case "element":
+		rest = xt.El("urn:verif:trailing", "left-in-the-reader", nil).Tokens()
+	case "stanza":
+		rest = xt.El("", "message", []xml.Attr{xt.A("type", "chat")}, xt.El("urn:verif:trailing", "left-in-the-reader", nil)).Tokens()
+	case "text":
+		rest = []xml.Token{xml.CharData("left in the reader")}
+	}
+	return xmlstream.MultiReader(c.node.Reader(), xt.TokenSliceReader(rest))
 }
 
 func genCase(t *rapid.T) tcase {
@@ -608,7 +644,7 @@ func (c *call) run(ctx context.Context, s *xmpp.Session) {
 	c.panicked = ev.Guard(func() {
 		switch c.entry {
 		case "Send":
-			c.err = s.Send(ctx, c.node.Reader())
+			c.err = s.Send(ctx, c.reader())
 		case "SendElement":
 			c.err = s.SendElement(ctx, kidsReader(c.payload), *c.start)
 		case "Encode":
@@ -617,16 +653,30 @@ func (c *call) run(ctx context.Context, s *xmpp.Session) {
 			c.err = s.EncodeElement(ctx, c.value(), *c.start)
 		case "TokenWriter":
 			w := s.TokenWriter()
-			_, c.err = xmlstream.Copy(w, c.node.Reader())
+			r := c.node.Reader()
+			for n := 0; c.err == nil; n++ {
+				if n == c.flushAt && n < len(c.node.Tokens())-1 {
+					if c.err = w.Flush(); c.err != nil {
+						break
+					}
+				}
+				tok, err := r.Token()
+				if tok != nil {
+					c.err = w.EncodeToken(tok)
+				}
+				if err != nil {
+					break
+				}
+			}
 			if e := w.Close(); c.err == nil {
 				c.err = e
 			}
 		case "SendIQ":
-			resp, c.err = s.SendIQ(ctx, c.node.Reader())
+			resp, c.err = s.SendIQ(ctx, c.reader())
 		case "SendMessage":
-			resp, c.err = s.SendMessage(ctx, c.node.Reader())
+			resp, c.err = s.SendMessage(ctx, c.reader())
 		case "SendPresence":
-			resp, c.err = s.SendPresence(ctx, c.node.Reader())
+			resp, c.err = s.SendPresence(ctx, c.reader())
 		case "EncodeIQ":
 			resp, c.err = s.EncodeIQ(ctx, c.value())
 		case "EncodeMessage":
@@ -945,6 +995,12 @@ func classify(tc tcase) (bool, []string) {
 	multiWrite, withStart, completion := false, false, false
 	for _, c := range tc.all() {
 		classes = append(classes, "entry-"+c.entry, "form-"+c.form)
+		if c.flushAt >= 0 {
+			classes = append(classes, "tokenwriter-flushed-inside-the-element")
+		}
+		if c.trailing != "" {
+			classes = append(classes, "reader-holds-more-than-the-element")
+		}
 		if c.start != nil {
 			withStart = true
 		}
